@@ -524,7 +524,7 @@ Proof.
   unfold define.
   set (gen := w_next W).
   set (units := number_units (s_crash s) gen (gen + 1) (if newsys then new_protos s else legacy_protos s)).
-  set (f := {| f_gen := gen; f_ctx := c; f_new := newsys; f_units := units; f_svc := s_svc s; f_pos := s_pos s |}).
+  set (f := {| f_gen := gen; f_ctx := c; f_new := newsys; f_units := units; f_svc := s_svc s; f_pos := s_pos s; f_inline := memn c (w_auto W) |}).
   set (Wf := {| w_led := w_led W; w_funcs := w_funcs W ++ [f]; w_active := w_active W; w_delayed := w_delayed W;
                 w_pending := w_pending W; w_zombie := w_zombie W; w_running := w_running W; w_starting := w_starting W;
                 w_hdl := w_hdl W; w_auto := w_auto W; w_next := gen + 1 + N.of_nat (length units); w_log := w_log W |}).
@@ -659,9 +659,9 @@ Lemma dropped_inv2 cfg g W : all_off cfg -> Inv2 W -> Inv2 (dropped cfg g W).
 Proof.
   intros AO [HI HO]. split; [apply dropped_inv; assumption|]. unfold dropped.
   destruct (find_func W g) as [f|] eqn:FF; [|exact HO]. destruct (find_func_some W g f FF) as [Hf EG]. subst g.
-  pose proof AO as [_ [D90 _]]. rewrite D90. destruct (f_new f) eqn:NF.
+  pose proof AO as [_ [D90 [_ [_ [_ D93]]]]]. rewrite D90, D93. destruct (f_new f) eqn:NF.
   - destruct (memn (f_gen f) (w_active W)) eqn:MA; [|exact HO]. apply memn_In in MA.
-    destruct (memn (f_gen f) (w_delayed W)); [apply dm_discard_once|apply dm_stop_once]; assumption.
+    destruct (memn (f_gen f) (w_delayed W)); [apply dm_discard_once|cbn [andb]; apply dm_stop_once]; assumption.
   - apply leg_func_stop_once; assumption.
 Qed.
 
@@ -707,7 +707,7 @@ Proof.
     + split; [apply do_reap_inv; exact HI|apply (same_once _ _ HO); reflexivity].
     + apply settle_inv2. exact HI2.
     + split; [apply crash_all_inv; assumption|apply crash_all_once; assumption].
-    + pose proof AO as [_ [_ [_ [_ D92]]]]. rewrite D92. apply ctx_start_inv2; assumption.
+    + pose proof AO as [_ [_ [_ [_ [D92 _]]]]]. rewrite D92. apply ctx_start_inv2; assumption.
 Qed.
 
 Lemma run_ops_inv2 cfg ops : all_off cfg -> forall W, Inv2 W -> Inv2 (run_ops cfg ops W).
